@@ -245,6 +245,26 @@ Fixpoint adjust_calls (n : nat) (st : astate) (thetas : list (list fval))
             let (st2, os) := adjust_calls n' st1 thetas in (st2, o :: os)
   end.
 
+(** a history of uses of ONE object: each entry = a [fit] on some sample (with the coefficients the
+    regression returned for it) followed by [n] calls of [adjust].  [fit] overwrites the whole state
+    (regressors, masks, fitted models): nothing of an earlier fit survives *)
+Record fitargs := {
+  f_summ : list (list fval); f_obs : list fval; f_thetas : list (list fval); f_bs : list (list Q)
+}.
+Definition refit (st : astate) (a : fitargs) : astate :=
+  fit_state (f_summ a) (f_obs a) (f_thetas a) (f_bs a).
+Fixpoint run_history (st : astate) (h : list (fitargs * nat))
+  : astate * list (list (option (list (list Q)))) :=
+  match h with
+  | [] => (st, [])
+  | (a, n) :: h' =>
+      let (st1, os) := adjust_calls n (refit st a) (f_thetas a) in
+      let (st2, r) := run_history st1 h' in (st2, os :: r)
+  end.
+(** what a fresh object returns for one entry *)
+Definition fresh_result (an : fitargs * nat) : list (option (list (list Q))) :=
+  repeat (adjust_all (input_variables (f_summ (fst an)) (f_obs (fst an))) (f_thetas (fst an)) (f_bs (fst an))) (snd an).
+
 (** ** listing order of the summaries and storage of the arrays
 
     The model above is a function of the NUMERIC values of the sample alone: it has no notion of the
@@ -293,7 +313,10 @@ Record arun := {
   r_cfg : config;                (* keyword arguments the adjustment object was built with *)
   r_oracle : list (list Q);      (* canonical listing: oracle slope of the run's regression problem; [] = the
                                     reference run's [a_oracle] (default problem, unique slope) *)
-  r_X : option (list (list fval)) (* the object's X attribute after adjust(), in the run's own listing *)
+  r_X : option (list (list fval)); (* the object's X attribute after adjust(), in the run's own listing *)
+  r_prev : nat;                  (* how many OTHER samples this object was fitted / adjusted on before (the model has
+                                    no memory across fits: [refit] ignores the old state, so they are not part of the case) *)
+  r_nmodels : nat                (* len(regression_models) after the run *)
 }.
 
 Record acase := {
@@ -305,6 +328,7 @@ Record acase := {
   a_impl_icpt : list Q;               (* per parameter: regression_models[i].intercept_ *)
   a_impl_out : option (list (list Q)); (* adjust_posterior(...).outputs per parameter; None = raised *)
   a_impl_X : option (list (list fval)); (* the adjustment object's X attribute after adjust() *)
+  a_impl_nmodels : nat;               (* len(regression_models) after the run *)
   a_runs : list arun                  (* the same numeric sample, listed / stored otherwise *)
 }.
 
@@ -335,6 +359,7 @@ Definition run_case (c : acase) (r : arun) : acase :=
      a_params := a_params c;
      a_oracle := map (fun b => permute (r_perm r) b 0) (run_oracle c r);
      a_impl_coef := r_coef r; a_impl_icpt := r_icpt r; a_impl_out := r_out r; a_impl_X := r_X r;
+     a_impl_nmodels := r_nmodels r;
      a_runs := [] |}.
 
 Fixpoint close_all (tol : Q) (X : list (list fval)) (thetas : list (list fval)) (bs : list (list Q))
@@ -382,6 +407,7 @@ Definition a_ok1 (cfg : config) (c : acase) : bool :=
   match a_impl_out c with
   | Some outs => ok_all cfg X (a_params c) (a_impl_coef c) (a_impl_icpt c) outs
                  && match a_impl_X c with Some Xi => x_attr_ok X Xi | None => false end
+                 && Nat.eqb (a_impl_nmodels c) (length (a_params c))   (* one model per parameter of THIS fit *)
   | None =>                           (* a failed run is admissible only when some parameter has no usable row *)
       match adjust_all X (a_params c) (map (fun _ => []) (a_params c)) with None => true | Some _ => false end
   end.
